@@ -134,6 +134,31 @@ theorem subscription_order (h : List Op) (m : MgrId) (r : Rcv) :
 
 example : subsAfter (sampleHistory ++ [.subscribeFn 1 1]) 1 1 = [2, 4] := by decide
 
+/-- The contract of `subscribe_` in terms of the specification: "not in the list of the manager its
+`events_` points to" (what `legal` tests on the model state) is "subscribed nowhere". -/
+theorem subscribe_contract_means_unsubscribed (h : List Op) (hl : Legal h) (r : Rcv) :
+    subscribedAtHome (run h).1 r = false ↔ ∀ m T, r ∉ subsAfter h m T := by
+  have hs := run_sim h inv_init sim_init hl
+  have hsub : ∀ m T, subsAfter h m T = lookup (run h).1 m T := fun m T => hs.2.1.subs m T
+  constructor
+  · intro hn m T
+    rw [hsub]
+    exact not_subscribed_anywhere hs.1 hn m T
+  · intro hall
+    unfold subscribedAtHome
+    cases hri : (run h).1.rcvs[r]? with
+    | none => rfl
+    | some ri =>
+      cases hh : ri.home with
+      | none => simp [hh]
+      | some m =>
+        have := hall m ri.ty
+        rw [hsub] at this
+        simpa [hh] using this
+
+example : subscribedAtHome (run sampleHistory2).1 2 = false ∧ subscribedAtHome (run sampleHistory2).1 3 = true := by
+  decide
+
 /-! ## the slot tables -/
 
 /-- No operation other than destroying the manager itself shortens a manager's slot table or removes /
